@@ -665,6 +665,7 @@ fn shrink_wire(s: &WireScenario, try_it: &mut dyn FnMut(WireScenario) -> bool) -
                     cands.push(Case::JsonText { frame: *frame, faults: faults.clone(), reader: None, err: None });
                 }
             }
+            Case::JsonStyled { .. } => {}
             Case::JsonValue { frame, faults } => {
                 if faults.len() > 1 {
                     for i in 0..faults.len() {
